@@ -73,7 +73,8 @@ def check(prog: Program, tier: str) -> Result:
             "property names; (R12.3) only positional / non-semantic fields are ignored and every other template field "
             "is compared; (R12.4) combination rules: a failed child fails the parent, repeated wildcards must agree "
             "(consistency test dominates every successful merge), alternatives (tuples) succeed on the first matching "
-            "alternative, type templates use isinstance, AST templates require the same node class. Not decided: the "
+            "alternative, type templates use isinstance, AST templates require the same node class; (R12.5) search completeness of the list "
+            "matcher: a result is returned from inside the loop over quantifier expansions only after it was tested to be a match. Not decided: the "
             "backtracking search itself (slack arithmetic, window arithmetic of walk_sequence)."),
         rule_text="instances = table entries and combination-rule sites in core.py",
     )
@@ -83,7 +84,7 @@ def check(prog: Program, tier: str) -> Result:
     _r12_3(prog, res)
     _r12_4(prog, res)
     _r12_5(prog, res)
-    res.floors.update({"R12.1": 18, "R12.2": 11, "R12.3": 3, "R12.4": 8, "R12.5": 2})
+    res.floors.update({"R12.1": 18, "R12.2": 11, "R12.3": 3, "R12.4": 8, "R12.5": 1})
     return res
 
 
@@ -494,7 +495,7 @@ VARIANTS = [
 
 META = {
     "design_ref": "DESIGN.md section 3, C12",
-    "technique": "table extraction and sibling cross-check (compiler / permutation generator / length filter) against the declarative quantifier reading; path-condition check that the consistency test dominates every successful merge",
+    "technique": "table extraction and sibling cross-check (compiler / permutation generator / length filter) against the declarative quantifier reading; path-condition checks that the consistency test dominates every successful merge and that the expansion loop only returns tested results",
     "level_text": ("Decides on the current source that the three quantifier tables agree with ?=(0,1) *=(0,inf) "
                    "+=(1,inf), that sequence patterns are searched in all block kinds the property names, that only "
                    "non-semantic fields are ignored and all other template fields compared, and the combination rules of "
